@@ -68,6 +68,9 @@ SnapV(vv, e, m2, what) ==
                o[5] # r.eTot, "C08:turnover-after-" \o what),
                o[6] # r.nB \/ o[7] # r.nS, "C08:counts-after-" \o what),
                ~e.vw, "C08:vwap-after-" \o what),
+     \* a round that leaves its queues out of priority order has prepared the next round to miss the best pair
+     !.C03 = F(@, what = "match" /\ (e.oB # IdsInPriority(m2.live, TRUE) \/ e.oS # IdsInPriority(m2.live, FALSE)),
+               "C03:queues-left-unordered-by-round"),
      !.C06 = F(@, e.clock # m2.clock, "C06:clock-after-" \o what)]
 \* the model can follow only while the observed book is the model book
 InSync(e, m2) == ObsBook(e) = BookOf(m2.live) /\ e.clock = m2.clock
@@ -139,24 +142,60 @@ TickStep(e) ==
   LET now == mkt.clock + 1
       gone == Expired(mkt.live, now)
       obsIds == {e.exp[k][1] : k \in 1..Len(e.exp)}
-      m2 == MTick(mkt, e.fund)
       setok == obsIds = {o.id : o \in gone} /\ Len(e.exp) = Cardinality(obsIds)
+      \* a wrong expiry set is a C04 verdict; when the orders the code removed are resting orders the model FOLLOWS the
+      \* code's book from here on, so that the later consequences (C03: a round that raises, C01 ...) are still judged
+      followable == ~setok /\ obsIds \subseteq {o.id : o \in mkt.live} /\ Len(e.exp) = Cardinality(obsIds)
+      goneF == IF followable THEN {o \in mkt.live : o.id \in obsIds} ELSE gone
+      m2 == LET t0 == MTick(mkt, e.fund) IN IF followable THEN [t0 EXCEPT !.live = mkt.live \ goneF] ELSE t0
       volok == \A k \in 1..Len(e.exp) : \A o \in gone : o.id = e.exp[k][1] => o.vol = e.exp[k][2]
       v1 == [v EXCEPT
                !.C04 = F(F(@, ~setok, "C04:expiry-set"), ~volok, "C04:expiry-volume"),
                !.C10 = F(@, e.lg # <<0, 0, 0, Len(e.exp)>>, "C10:expiry-records"),
-               !.C06 = F(F(F(@, e.clock # now, "C06:clock-step"),
-                          Len(e.hist) # now, "C06:history-length"),
-                          ~IsPrefix(seen, e.hist), "C06:history-changed")] IN
+               \* (e.nh: an earlier Market._set_time skipped steps; the series getters refuse the skipped times, the history is not read)
+               !.C06 = F(F(F(F(@, e.clock # now, "C06:clock-step"),
+                          ~e.nh /\ Len(e.hist) # now, "C06:history-length"),
+                          ~e.nh /\ ~IsPrefix(seen, e.hist), "C06:history-changed"),
+                          \* the row of the step that ends now, read just before the clock moved (pre; 0 = not read),
+                          \* is the row recorded for that time
+                          ~e.nh /\ e.pre # 0 /\ Len(e.hist) = now /\ now > 0 /\ e.hist[now] # e.pre, "C06:closing-row-rewritten-by-clock-step")] IN
   /\ mkt' = m2
   /\ acct' = [i \in 1..Len(acct) |->
-                IF InBook(gone, i - 1)
-                THEN [acct[i] EXCEPT !.term = ExpiredT, !.tvol = ById(gone, i - 1).vol]
+                IF InBook(goneF, i - 1)
+                THEN [acct[i] EXCEPT !.term = ExpiredT, !.tvol = ById(goneF, i - 1).vol]
                 ELSE acct[i]]
-  /\ seen' = e.hist
+  /\ seen' = IF e.nh THEN seen ELSE e.hist
   /\ objs' = objs
   /\ v' = SnapV(v1, e, m2, "tick")
-  /\ sync' = (setok /\ InSync(e, m2))
+  /\ sync' = ((setok \/ followable) /\ InSync(e, m2))
+
+\* Market._set_time: the clock jumps several steps at once.  Orders whose life ended before the new time leave now;
+\* what the price series show for the new time after a jump is adopted from the observation (the properties speak of
+\* clock STEPS there); the step counters restart; recorded history stays as it was.
+JumpStep(e) ==
+  LET now == e.to
+      gone == Expired(mkt.live, now)
+      obsIds == {e.exp[k][1] : k \in 1..Len(e.exp)}
+      o == e.row
+      setok == obsIds = {x.id : x \in gone} /\ Len(e.exp) = Cardinality(obsIds)
+      followable == ~setok /\ obsIds \subseteq {x.id : x \in mkt.live} /\ Len(e.exp) = Cardinality(obsIds)
+      goneF == IF followable THEN {x \in mkt.live : x.id \in obsIds} ELSE gone
+      m2 == [mkt EXCEPT !.clock = now, !.live = mkt.live \ goneF,
+                        !.row = [mkt |-> o[1], last |-> o[2], mid |-> o[3], fund |-> e.fund, eVol |-> 0, eTot |-> 0, nB |-> 0, nS |-> 0]]
+      volok == \A k \in 1..Len(e.exp) : \A x \in gone : x.id = e.exp[k][1] => x.vol = e.exp[k][2]
+      v1 == [v EXCEPT
+               !.C04 = F(F(@, ~setok, "C04:expiry-set-at-jump"), ~volok, "C04:expiry-volume-at-jump"),
+               !.C10 = F(@, e.lg # <<0, 0, 0, Len(e.exp)>>, "C10:expiry-records"),
+               !.C06 = F(@, e.clock # now, "C06:clock-jump")] IN
+  /\ mkt' = m2
+  /\ acct' = [i \in 1..Len(acct) |->
+                IF InBook(goneF, i - 1)
+                THEN [acct[i] EXCEPT !.term = ExpiredT, !.tvol = ById(goneF, i - 1).vol]
+                ELSE acct[i]]
+  /\ seen' = seen             \* the times skipped by the jump are not recorded history yet
+  /\ objs' = objs
+  /\ v' = SnapV(v1, e, m2, "jump")
+  /\ sync' = (now > mkt.clock /\ (setok \/ followable) /\ InSync(e, m2))
 
 \* ------------------------------------------------------------------ matching rounds
 MatchStep(e) ==
@@ -235,6 +274,7 @@ Step ==
      ELSE CASE e.k = "sub" -> SubStep(e)
             [] e.k = "can" -> CanStep(e)
             [] e.k = "tick" -> TickStep(e)
+            [] e.k = "jump" -> JumpStep(e)
             [] e.k = "match" -> MatchStep(e)
             [] e.k = "run" -> RunStep(e)
             [] e.k = "probe" -> ProbeStep(e)
